@@ -191,15 +191,17 @@ func (r *Report) writerHistory(g *gen.G, cf *CasesFile, dir string) {
 			} else {
 				o := &writer.Options{}
 				var pc [][2]string
+				reused := false
 				if len(percall) > 0 && g.Chance(0.4) && (percall[len(percall)-1].o.Format != "" || w.Options.Format != "") {
 					// the same options value handed to a second call, possibly on another instance
 					k := g.Int(len(percall))
 					if percall[k].o.Format != "" || w.Options.Format != "" {
 						o, pc = percall[k].o, percall[k].pc
+						reused = true
 						r.Count("writer:percall-options-reused")
 					}
 				}
-				if len(pc) == 0 && o.Format == "" && o.RenderOptions == nil {
+				if !reused {
 					if g.Chance(0.6) || w.Options.Format == "" {
 						o.Format = gen.Pick(g, []formats.Format{fmtA, fmtB})
 						pc = append(pc, [2]string{"format", string(o.Format)})
